@@ -211,10 +211,16 @@ def scenarios(prop, tier, rng):
         # "... and MPC-message calls": one directed link delivers its MPC messages as late as possible
         out.append(("n3slow20", scen(n=3, leader=1, consts=[True, True, True], slow=[2, 0])))
         out.append(("n3slow10", scen(n=3, leader=0, consts=[False, False, False], slow=[1, 0])))
+        # a circuit of several thousand AND gates (the garbled gates travel in 9 chunks): the per-peer message queues of
+        # the state machine hold exactly what a garbler can send ahead of a slow third party (one slot fewer deadlocks)
+        out.append(("n3big10", scen(n=3, leader=0, consts=[True, False, False], slow=[1, 0], prog="M")))
         if not q:
             out.append(("n3k2", scen(n=3, comps=2, leader=[2, 2], conc=[1, 1, 1], consts=[False, True, False])))
             for (a, b) in ((0, 1), (0, 2), (1, 2), (2, 1)):
                 out.append((f"n3slow{a}{b}", scen(n=3, leader=(a + b) % 3, consts=[True, False, True], slow=[a, b])))
+            # a circuit of several thousand AND gates (9 chunks of garbled gates): the margin of the per-peer queues
+            for (a, b) in ((2, 0), (0, 1), (2, 1)):
+                out.append((f"n3big{a}{b}", scen(n=3, leader=b, consts=[True, False, False], slow=[a, b], prog="M")))
             out.append(("n2slow01", scen(n=2, slow=[0, 1])))
             out.append(("n2slow10", scen(n=2, leader=1, slow=[1, 0])))
     elif prop == "C14":
